@@ -88,4 +88,17 @@ __CPROVER_ensures(__exc == 0 ==> (SET_EQ(g_eval_snap[__CPROVER_old(g_eval_n)]._f
                                   SET_EQ(g_eval_snap[__CPROVER_old(g_eval_n)]._type._level, __CPROVER_return_value->_type._level) &&
                                   SET_EQ(g_eval_snap[__CPROVER_old(g_eval_n)]._value.i, __CPROVER_return_value->_value.i)))
 ;
+
+/* const Type& Expression::type(Context&) -- the compiled (static) type of a child, any type at all,
+ * NO_TYPE meaning opaque.  Recorded so that the parent's contract can speak about "the type of operand k". */
+int g_type_n; struct Type g_stype[G_MAXEVAL]; struct Expression *g_type_node[G_MAXEVAL];
+const struct Type *VCALL_Expression_type(struct Expression *e, struct Context *ctx)
+__CPROVER_requires(__exc == 0 && g_type_n >= 0 && g_type_n < G_MAXEVAL)
+__CPROVER_assigns(g_type_n, g_stype[g_type_n]._major, g_stype[g_type_n]._minor, g_stype[g_type_n]._level, g_type_node[g_type_n])
+__CPROVER_ensures(__exc == 0)
+__CPROVER_ensures(g_type_n == __CPROVER_old(g_type_n) + 1 && PTR_EQ(g_type_node[__CPROVER_old(g_type_n)], e))
+__CPROVER_ensures(PTR_EQ(__CPROVER_return_value, &g_stype[__CPROVER_old(g_type_n)]) && g_stype[__CPROVER_old(g_type_n)]._major <= IMAGINARY)
+;
+#define ST1 (&g_stype[0])
+#define ST2 (&g_stype[1])
 #endif
